@@ -703,7 +703,9 @@ class BaseProxy(_BaseProxy_):
                 self._Client,
                 self._server,
             ),
-            # exitpriority=10,
+            exitpriority=10,
+            # Without an exit priority the finalizer of a proxy that is still alive when
+            # its process exits is discarded, and the reference it holds is never returned.
         )
 
     # Changes to the original version:
